@@ -3,6 +3,7 @@
 This module provides base classes for functionality common to odML objects.
 """
 import copy
+import operator
 import posixpath
 
 try:
@@ -286,6 +287,9 @@ class Sectionable(BaseObject):
         :param section: odML Section object.
         """
         from odml.section import BaseSection
+        # Refuse a position that is not an integer before anything is changed.
+        position = operator.index(position)
+
         if isinstance(section, BaseSection):
             if section.name in self._sections:
                 raise ValueError("Section with name '%s' already exists." % section.name)
